@@ -14,6 +14,7 @@ import (
 	cmttypes "github.com/cometbft/cometbft/types"
 	dbm "github.com/cosmos/cosmos-db"
 	sdk "github.com/cosmos/cosmos-sdk/types"
+	"github.com/cosmos/gogoproto/proto"
 	bitcoinkeeper "github.com/goatnetwork/goat/x/bitcoin/keeper"
 	bitcointypes "github.com/goatnetwork/goat/x/bitcoin/types"
 	goatkeeper "github.com/goatnetwork/goat/x/goat/keeper"
@@ -22,7 +23,6 @@ import (
 	lockingtypes "github.com/goatnetwork/goat/x/locking/types"
 	relayerkeeper "github.com/goatnetwork/goat/x/relayer/keeper"
 	relayertypes "github.com/goatnetwork/goat/x/relayer/types"
-	"github.com/cosmos/gogoproto/proto"
 	"pgregory.net/rapid"
 	"verif/harness/world"
 )
